@@ -286,12 +286,20 @@ func Elab(a *Ast, o Opts) *TreeWire {
 
 // set ids are interned by content hash in depth-first order: the order in which the writer
 // fills Code.Sets, so that a set id in the exported tree is the operand the writer emits
+func setKey(cs *syntax.CharSet) string {
+	rs, _, sub, _, _, _, _ := syntax.VerifCharSetFields(cs)
+	k := string(cs.Hash()) + fmt.Sprint(rs)
+	if sub != nil {
+		k += "-" + setKey(sub)
+	}
+	return k
+}
+
 func exportNode(t *TreeWire, n *syntax.RegexNode, setIDs map[string]int) {
 	set := 0
 	if n.Set != nil && (n.T == ntSet || n.T == ntSetloop || n.T == ntSetlazy || n.T == 45) {
 		// (the serialised form alone is not enough: it writes surrogate range endpoints as U+FFFD)
-		rs, _, _, _, _, _, _ := syntax.VerifCharSetFields(n.Set)
-		key := string(n.Set.Hash()) + fmt.Sprint(rs)
+		key := setKey(n.Set)
 		id, ok := setIDs[key]
 		if !ok {
 			cs := n.Set
